@@ -196,9 +196,10 @@ def run_determinism(ctx, prop, tier, seed, binp, workdir):
     shutil.rmtree(scratch, ignore_errors=True)
     if rc0 != 0 or "No error has been found" not in ttext or npaths == 0:
         raise ctx["Machinery"]("TLC did not verify MC_XferPaths:\n" + ttext[-2000:])
-    if tier == "quick":   # a deterministic sample of the paths keeps the quick tier short
-        lines = open(paths).read().splitlines()
-        open(paths, "w").write("\n".join(lines[::7]) + "\n")
+    # a deterministic sample of the paths bounds the run (the determinism command is sequential: 9 replicas per history
+    # under the race detector; all paths of the thorough model would take about three hours)
+    lines = open(paths).read().splitlines()
+    open(paths, "w").write("\n".join(lines[::7] if tier == "quick" else lines[::5]) + "\n")
     # TLC-enumerated genesis states: many fresh chains initialised from the same genesis must agree
     gcfg = "MC_Genesis.cfg" if tier == "quick" else "MC_Genesis_T.cfg"
     goutp, grc, gscratch = ctx["run_tlc"]("MC_Genesis", gcfg, workdir, 1500, os.cpu_count() or 8)
@@ -215,7 +216,7 @@ def run_determinism(ctx, prop, tier, seed, binp, workdir):
             continue
         g = g.get("g", {})
         (multi if any(isinstance(v, list) and len(v) >= 2 for v in g.values()) else rest).append(line)
-    cap = 400 if tier == "quick" else 4000
+    cap = 400 if tier == "quick" else 2000
     pick = multi[::max(1, len(multi) // cap)] + rest[::max(1, len(rest) // (cap // 4))]
     with open(paths, "a") as f:
         f.write("".join(pick))
